@@ -36,21 +36,29 @@ let rec parse_node (toks : string list) : node * string list =
   | t :: rest ->
     let body = String.sub t 1 (String.length t - 1) in
     (match t.[0] with
-     | 'T' ->                      (* a node of a typed engine: the value follows *)
+     | 'T' ->
+       (* a node of a typed engine: the value follows.  A node whose Go type is the engine's type-level
+          node type (engines tbind / tgen) is a same-type node (NFMap / NFList: the assembler's shortcut);
+          the representation VIEW of one (engines tbindr / tgenr) is, to every assembler, a node of
+          another implementation: it is ranged over like a basicnode one *)
+       let et = str_of_bytes (bytes_of_hex body) in
+       let eng = String.sub et 0 (String.index et ':') in
+       let view = String.length eng > 0 && eng.[String.length eng - 1] = 'r' in
        (match parse_node rest with
-        | (NMap (t, _), r) -> (NFMap t, r)
-        | (NList x, r) -> (NFList x, r)
+        | (NMap (t, _), r) when not view -> (NFMap t, r)
+        | (NList x, r) when not view -> (NFList x, r)
         | other -> other)
      | 'F' | 'K' ->                (* the child under a key of a typed node / the key node its iterator yields *)
        let et = str_of_bytes (bytes_of_hex body) in
        let i = String.index et ':' in
        let j = String.index_from et (i + 1) ':' in
        let key = String.sub et (j + 1) (String.length et - j - 1) in
+       let view = i > 0 && et.[i - 1] = 'r' in     (* looked up from a representation view: a view again *)
        let (c, r) = parse_node rest in
        if t.[0] = 'K' then (NString (bytes_of_str key), r)
        else (match lookup_by_string c (bytes_of_str key) with
-           | Ok (NMap (t, _)) -> (NFMap t, r)     (* a container of that engine, not a basicnode one *)
-           | Ok (NList x) -> (NFList x, r)
+           | Ok (NMap (t, _)) when not view -> (NFMap t, r)     (* a container of that engine, not a basicnode one *)
+           | Ok (NList x) when not view -> (NFList x, r)
            | Ok v -> (v, r)
            | Err _ -> failwith "parse_node: F: no such key")
      | 'n' -> (NNull, rest)
